@@ -112,6 +112,22 @@ def psd_layouts(d, ctx):
         # documented floor of the normaliser is 1e-10 and is part of the oracle)
         if mkind in ('float', 'posterior', 'sparse') and d.aux(102).integers(0, 2):
             m = m * 10.0 ** d.aux(103).uniform(-9, 3)
+        elif mkind in ('float', 'posterior') and d.aux(104).integers(0, 3) == 0:
+            # masks the caller has normalised already: time sums equal to one
+            # up to 1e-5 (normalised in single precision, or with a small
+            # regulariser in the denominator) - the documented result is still
+            # the division by the actual sum
+            aux = d.aux(105)
+            tot = m.sum(axis=-1, keepdims=True)
+            if np.all(tot > 0):
+                how = int(aux.integers(0, 3))
+                if how == 0:
+                    m32 = m.astype(np.float32)
+                    m = (m32 / m32.sum(axis=-1, keepdims=True)).astype(np.float64)
+                elif how == 1:
+                    m = m / (tot + 10.0 ** aux.uniform(-8, -5) * tot)
+                else:
+                    m = m / tot * (1 + aux.uniform(-1e-5, 1e-5, size=tot.shape))
         if mkind in ('float', 'posterior', 'sparse') and d.int(0, 3) == 0:
             m = m.astype(np.float32)
             rt = max(rt, 1e-5)
